@@ -122,6 +122,154 @@ __xml_namespace__ = "https://dummy.com"
 ''',
     ),
     (
+        "targeted/constrained-primitive-with-several-parents",
+        '''
+@verification
+def matches_lower(text: str) -> bool:
+    \"\"\"Check the text.\"\"\"
+    pattern = f"^[a-z]*$"
+    return match(pattern, text) is not None
+
+
+@verification
+def matches_no_x(text: str) -> bool:
+    \"\"\"Check the text.\"\"\"
+    pattern = f"^[^x]*$"
+    return match(pattern, text) is not None
+
+
+@invariant(lambda self: len(self) <= 6, "At most six characters.")
+class Short_text(str, DBC):
+    pass
+
+
+@invariant(lambda self: matches_lower(self), "Must be lower-case.")
+class Lower_text(str, DBC):
+    pass
+
+
+@invariant(lambda self: len(self) >= 2, "At least two characters.")
+class Longish_text(str, DBC):
+    pass
+
+
+class Short_lower_text(Short_text, Lower_text, DBC):
+    pass
+
+
+@invariant(lambda self: matches_no_x(self), "Must not have an x.")
+class Picky_text(Short_text, Lower_text, Longish_text, DBC):
+    pass
+
+
+class Lower_short_text(Lower_text, Short_text, DBC):
+    pass
+
+
+@invariant(lambda self: len(self.some_texts) >= 1, "At least one text.")
+class Something(DBC):
+    some_text: Short_lower_text
+    other_text: Lower_short_text
+    picky_text: Picky_text
+    some_texts: List[Picky_text]
+    optional_text: Optional[Short_lower_text]
+
+    def __init__(
+        self,
+        some_text: Short_lower_text,
+        other_text: Lower_short_text,
+        picky_text: Picky_text,
+        some_texts: List[Picky_text],
+        optional_text: Optional[Short_lower_text] = None,
+    ) -> None:
+        self.some_text = some_text
+        self.other_text = other_text
+        self.picky_text = picky_text
+        self.some_texts = some_texts
+        self.optional_text = optional_text
+
+
+__version__ = "dummy"
+__xml_namespace__ = "https://dummy.com"
+''',
+    ),
+    (
+        "targeted/descendant-adds-patterns-to-a-property-that-has-one",
+        '''
+@verification
+def matches_lower(text: str) -> bool:
+    \"\"\"Check the text.\"\"\"
+    pattern = f"^[a-z]*$"
+    return match(pattern, text) is not None
+
+
+@verification
+def matches_starts_with_id(text: str) -> bool:
+    \"\"\"Check the text.\"\"\"
+    pattern = f"^id.*$"
+    return match(pattern, text) is not None
+
+
+@verification
+def matches_ends_with_z(text: str) -> bool:
+    \"\"\"Check the text.\"\"\"
+    pattern = f"^.*z$"
+    return match(pattern, text) is not None
+
+
+@invariant(lambda self: matches_lower(self), "Must be lower-case.")
+class Lower_text(str, DBC):
+    pass
+
+
+@invariant(lambda self: matches_lower(self.code), "Code must be lower-case.")
+@invariant(lambda self: len(self.code) <= 12, "Code must be short.")
+@serialization(with_model_type=True)
+class Parent(DBC):
+    code: str
+    label: Lower_text
+    nick: Optional[Lower_text]
+
+    def __init__(self, code: str, label: Lower_text, nick: Optional[Lower_text] = None) -> None:
+        self.code = code
+        self.label = label
+        self.nick = nick
+
+
+@invariant(lambda self: matches_starts_with_id(self.code), "Code must start with id.")
+@invariant(lambda self: matches_starts_with_id(self.label), "Label must start with id.")
+@invariant(
+    lambda self: not (self.nick is not None) or matches_ends_with_z(self.nick),
+    "Nick must end with z.",
+)
+class Child(Parent):
+    def __init__(self, code: str, label: Lower_text, nick: Optional[Lower_text] = None) -> None:
+        Parent.__init__(self, code=code, label=label, nick=nick)
+
+
+@invariant(lambda self: matches_ends_with_z(self.code), "Code must end with z.")
+@invariant(lambda self: len(self.code) >= 4, "Code must not be too short.")
+class Grand_child(Child):
+    def __init__(self, code: str, label: Lower_text, nick: Optional[Lower_text] = None) -> None:
+        Child.__init__(self, code=code, label=label, nick=nick)
+
+
+class Holder(DBC):
+    parent: Parent
+    child: Child
+    grand_children: List[Grand_child]
+
+    def __init__(self, parent: Parent, child: Child, grand_children: List[Grand_child]) -> None:
+        self.parent = parent
+        self.child = child
+        self.grand_children = grand_children
+
+
+__version__ = "dummy"
+__xml_namespace__ = "https://dummy.com"
+''',
+    ),
+    (
         "targeted/guard-on-other-property+bytes-bound",
         '''
 @verification
